@@ -274,7 +274,7 @@ pub fn parse_by_type(ty: &str, text: &str) -> Option<String> {
 
 // ------------------------------------------------------------------------------------------ generators
 
-const BOUNDS: [u64; 9] = [0, 1, 2, 9, 10, 255, (1 << 53) + 1, u64::MAX - 1, u64::MAX];
+const BOUNDS: [u64; 10] = [0, 1, 2, 9, 10, 80, 255, (1 << 53) + 1, u64::MAX - 1, u64::MAX];
 
 fn num(r: &mut Rng) -> u64 {
     match r.below(4) {
@@ -416,7 +416,7 @@ pub fn mutate(r: &mut Rng, s: &str) -> String {
     let chars: Vec<char> = s.chars().collect();
     let n = chars.len();
     let mut out: String;
-    match r.below(7) {
+    match r.below(8) {
         0 if n > 0 => {
             let i = r.below(n as u64) as usize;
             out = chars[..i].iter().chain(chars[i + 1..].iter()).collect();
@@ -444,6 +444,23 @@ pub fn mutate(r: &mut Rng, s: &str) -> String {
             let mut p: Vec<String> = parts.iter().map(|x| x.to_string()).collect();
             let dup = if r.chance(1, 2) { parts[k].to_string() } else { format!("{}{}", parts[k], *r.pick(&ALPHABET[..])) };
             p.insert(r.below(p.len() as u64 + 1) as usize, dup);
+            out = p.join(";");
+        }
+        6 => {
+            // padding: many extra well-formed `key=value` pairs (repeated and unknown keys) at one field boundary
+            let parts: Vec<&str> = s.split(';').collect();
+            let k = r.below(parts.len() as u64 + 1) as usize;
+            let count = *r.pick(&[1u64, 3, 7, 11, 17, 40, 300]);
+            let mut p: Vec<String> = parts.iter().map(|x| x.to_string()).collect();
+            for j in 0..count {
+                let src = parts[r.below(parts.len() as u64) as usize];
+                let pair = if r.chance(1, 2) && src.matches('=').count() == 1 && !src.contains([':', ',', '[', ']']) {
+                    src.to_string()
+                } else {
+                    format!("zz{j}={}", r.below(100))
+                };
+                p.insert(k.min(p.len()), pair);
+            }
             out = p.join(";");
         }
         5 => {
